@@ -24,7 +24,7 @@
 (* .config compare bytewise instead of by first appearance.                       *)
 EXTENDS Integers, Sequences, FiniteSets, TLC
 
-CONSTANTS CfgKeys, Vals, Bases, XVals, GVals, MenuIds, MaxExprs, MaxResults, UnrankedGroupSubs
+CONSTANTS CfgKeys, Vals, Bases, XVals, XYVals, GVals, MenuIds, MaxExprs, MaxResults, UnrankedGroupSubs
 
 \* ---------------------------------------------------------------- value attributes
 \* bytewise (strings.Compare) rank of every value token that can occur in a row
@@ -60,13 +60,15 @@ IsNameKey(k) == k \in {".name", "/x", "/gomaxprocs"}
 IsPlain(k) == k \in CfgKeys
 
 \* ---------------------------------------------------------------- results
-\* file configuration, name = base[/x=X][-G]; rev: Config slice lists keys in reverse order
-Results == {r \in [cfg : UNION {[D -> Vals] : D \in SUBSET CfgKeys}, base : Bases, x : XVals, g : GVals, rev : BOOLEAN] :
+\* file configuration, name = base[/x=X][/xy=XY][-G] (the key "/xy" extends the key "/x" and is
+\* never projected on its own); rev: Config slice lists keys in reverse order
+Results == {r \in [cfg : UNION {[D -> Vals] : D \in SUBSET CfgKeys}, base : Bases, x : XVals, xy : XYVals, g : GVals, rev : BOOLEAN] :
               r.rev => Cardinality(DOMAIN r.cfg) >= 2}
 
 FullName(r, nx) ==
   (IF ".name" \in nx THEN "*" ELSE r.base)
   \o (IF r.x # "" /\ "/x" \notin nx THEN "/x=" \o r.x ELSE "")
+  \o (IF r.xy # "" THEN "/xy=" \o r.xy ELSE "")
   \o (IF r.g # "" /\ "/gomaxprocs" \notin nx THEN "-" \o r.g ELSE "")
 
 \* declarative extraction of one non-group key
@@ -243,7 +245,7 @@ NoLoss ==
     \A i, j \in 1..Len(stream) :
       LET r1 == stream[i] r2 == stream[j] IN
       (\A pi \in 1..Len(P) : PassesFixed(P[pi], r1) /\ PassesFixed(P[pi], r2)) =>
-        (SameAll(r1, r2) <=> (r1.cfg = r2.cfg /\ r1.base = r2.base /\ r1.x = r2.x /\ r1.g = r2.g))
+        (SameAll(r1, r2) <=> (r1.cfg = r2.cfg /\ r1.base = r2.base /\ r1.x = r2.x /\ r1.xy = r2.xy /\ r1.g = r2.g))
 
 \* C09 -------------------------------------------------------------------------
 Pos(s, v) == IF \E i \in 1..Len(s) : s[i] = v THEN CHOOSE i \in 1..Len(s) : s[i] = v ELSE 0
